@@ -20,6 +20,15 @@ def fw_hex_to_int(hex_str, words):
     return struct.unpack(f"<{words}H", binascii.unhexlify(hex_str))
 
 
+def safe_fw_hex_to_int(hex_str, words):
+    """Unpack hex string into integers, return None if the string is malformed."""
+    try:
+        return fw_hex_to_int(hex_str, words)
+    except (ValueError, struct.error) as exc:
+        _LOGGER.warning("Ignoring malformed firmware payload %s: %s", hex_str, exc)
+        return None
+
+
 def fw_int_to_hex(*args):
     """Pack integers into hex string.
 
@@ -104,7 +113,10 @@ class OTAFirmware:
 
     def respond_fw(self, msg):
         """Respond to a firmware request."""
-        req_fw_type, req_fw_ver, req_blk = fw_hex_to_int(msg.payload, 3)
+        request = safe_fw_hex_to_int(msg.payload, 3)
+        if request is None:
+            return None
+        req_fw_type, req_fw_ver, req_blk = request
         _LOGGER.debug(
             "Received firmware request with firmware type %s, "
             "firmware version %s, block index %s",
@@ -129,9 +141,10 @@ class OTAFirmware:
 
     def respond_fw_config(self, msg):
         """Respond to a firmware config request."""
-        (req_fw_type, req_fw_ver, req_blocks, req_crc, bloader_ver) = fw_hex_to_int(
-            msg.payload, 5
-        )
+        request = safe_fw_hex_to_int(msg.payload, 5)
+        if request is None:
+            return None
+        (req_fw_type, req_fw_ver, req_blocks, req_crc, bloader_ver) = request
         _LOGGER.debug(
             "Received firmware config request with firmware type %s, "
             "firmware version %s, %s blocks, CRC %s, bootloader %s",
